@@ -20,13 +20,14 @@ func propC19() Property {
 		ID: "C19",
 		Explanation: "R1 (undefined references refused): in the dictionary builder, whenever every lookup of a referenced field/component name on a path missed, the path returns a non-nil error; no plain (non comma-ok) lookup result is dereferenced. " +
 			"R2 (vocabulary agreement): the element names and attributes used at each level of the nine shipped specs are exactly those bound by the XML* struct tags (an attribute the structs do not bind is silently dropped; a tag that occurs in no spec is a typo that drops data). " +
-			"R3 (required propagation guards): a component's/group's required fields are taken from a part only under that part's own Required(); a message's RequiredTags only under allowRequired ∧ field.Required(), where allowRequired is the enclosing component's Required(); part lists are appended in declaration order. R4: part-type exhaustiveness and the cycle guard (C09-K4, K5).",
+			"R3 (required propagation guards): a component's/group's required fields are taken from a part only under that part's own Required(); a message's RequiredTags only under allowRequired ∧ field.Required(), where allowRequired is the enclosing component's Required(); part lists are appended in declaration order. R4: part-type exhaustiveness and the cycle guard (C09-K4, K5). R5 (errors surface): in the dictionary package no return hands back a nil error on a path whose condition establishes that an error result of a call was non-nil (a shadowed `err` after `break`, a forgotten assignment): the refusal R1 proves at the leaf must reach the caller of Parse.",
 		NotDecided: "that the flattened field sets equal the specification's for every message (a semantic comparison over ~900 definitions), enumeration values.",
 		Rules: []RuleDef{
 			{ID: "C19-R1", Desc: "missed name lookups end in an error", Min: 3, Run: c19R1},
 			{ID: "C19-R2", Desc: "XML struct tags ⇄ spec vocabulary", Min: 10, Run: c19R2},
 			{ID: "C19-R3", Desc: "required propagation guards", Min: 4, Run: c19R3},
 			{ID: "C19-R4", Desc: "part types exhaustive, cyclic components refused", Min: 2, Run: c19R4},
+			{ID: "C19-R5", Desc: "a detected build error is returned, never replaced by nil", Min: 5, Run: c19R5},
 		},
 	}
 }
@@ -50,7 +51,7 @@ func c19R1(c *Ctx) {
 			}
 			ko := p.Origin(l.Index)
 			// keyed by the Name of an XML member (a reference), not by a definition's own name in a build-all loop
-			if ko.Kind == "field" && ko.Field.Name() == "Name" && ko.Base != nil && ko.Base.Val != nil && typeName(ko.Base.Val.Type()) == "XMLComponentMember" {
+			if ko.Kind == "field" && cn(ko.Field) == "Name" && ko.Base != nil && ko.Base.Val != nil && typeName(ko.Base.Val.Type()) == "XMLComponentMember" {
 				lookups = append(lookups, l)
 			}
 		})
@@ -329,10 +330,10 @@ func c19R3(c *Ctx) {
 				if a.Rel != "" || !a.Val {
 					return false
 				}
-				if a.B.Kind == "call" && a.B.Method != nil && a.B.Method.Name() == "Required" {
+				if a.B.Kind == "call" && a.B.Method != nil && cn(a.B.Method) == "Required" {
 					return true
 				}
-				return a.B.Kind == "field" && a.B.Field.Name() == "required"
+				return a.B.Kind == "field" && cn(a.B.Field) == "required"
 			})
 			c.Check(ok2, FuncName(fn), p.InstrPos(st), "required-guard", "required fields taken from a part only under that part's Required()", "fields are added to requiredFields under "+d.String()+": required fields of an optional part would be demanded (or required ones not)")
 		})
@@ -348,21 +349,21 @@ func c19R3(c *Ctx) {
 	for _, f := range WithClosures(nm) {
 		for _, cl := range Calls(f) {
 			cal := cl.Common().StaticCallee()
-			if cal == nil || cal.Name() != "Add" {
+			if cal == nil || fnName(cal) != "Add" {
 				continue
 			}
 			ro := p.Origin(cl.Common().Args[0])
-			if !(ro.Kind == "field" && ro.Field.Name() == "RequiredTags") {
+			if !(ro.Kind == "field" && cn(ro.Field) == "RequiredTags") {
 				continue
 			}
 			nAdd++
 			d := p.ReachCond(cl.Block())
 			tag := p.Origin(cl.Common().Args[1])
 			reqCall := func(a *Atom) bool {
-				return a.Rel == "" && a.Val && a.B.Kind == "call" && (a.B.Method != nil && a.B.Method.Name() == "Required" || a.B.Callee != nil && a.B.Callee.Name() == "Required")
+				return a.Rel == "" && a.Val && a.B.Kind == "call" && (a.B.Method != nil && cn(a.B.Method) == "Required" || a.B.Callee != nil && fnName(a.B.Callee) == "Required")
 			}
 			fromRequiredFields := tag.Mentions(func(x *Org) bool {
-				return x.Kind == "call" && x.Method != nil && x.Method.Name() == "RequiredFields"
+				return x.Kind == "call" && x.Method != nil && cn(x.Method) == "RequiredFields"
 			})
 			if fromRequiredFields {
 				c.Check(d.Implies(reqCall), FuncName(f), p.InstrPos(cl), "requiredtags-component", "component fields required via part.RequiredFields() only when the part is Required()", "required fields of a component are marked required in the message under "+d.String()+", not only when the component itself is required")
@@ -402,4 +403,55 @@ func c19R4(c *Ctx) {
 	defer func() { c.Filter = nil }()
 	c09K4(c)
 	c09K5(c)
+}
+
+// C19-R5: an error detected while building is returned — no return hands back a nil error on a
+// path on which an error result of an in-package call was found non-nil.
+func c19R5(c *Ctx) {
+	p := c.P
+	n := 0
+	for _, fn := range p.FuncsIn(modPath + "/datadictionary") {
+		res := fn.Signature.Results()
+		if res.Len() == 0 || !isErrorType(res.At(res.Len()-1).Type()) {
+			continue
+		}
+		name := FuncName(fn)
+		for _, b := range fn.Blocks {
+			r, ok := b.Instrs[len(b.Instrs)-1].(*ssa.Return)
+			if !ok {
+				continue
+			}
+			ev := r.Results[len(r.Results)-1]
+			var conds []DNF
+			if phi, ok := ev.(*ssa.Phi); ok && phi.Block() == b {
+				for i, e := range phi.Edges {
+					if p.Origin(e).IsNil() {
+						conds = append(conds, dnfAnd(p.ReachCond(b.Preds[i]), edgeCond(p, b.Preds[i], b)))
+					}
+				}
+			} else if p.Origin(ev).IsNil() {
+				conds = append(conds, p.ReachCond(b))
+			}
+			for _, d := range conds {
+				n++
+				bad := ""
+				for _, a := range d.Atoms() {
+					if a.Rel != "!=" {
+						continue
+					}
+					l, rr := a.L, a.R
+					if !rr.IsNil() {
+						l, rr = rr, l
+					}
+					if rr.IsNil() && l.Kind == "call" && l.Val != nil && isErrorType(l.Val.Type()) {
+						bad = a.String()
+					}
+				}
+				c.Check(bad == "", name, p.InstrPos(r), "error-returned", "no detected error is replaced by nil", "a nil error is returned on a path on which "+bad+" was established: the failure found while building the dictionary is swallowed (a shadowed or forgotten error variable) and an incomplete dictionary is handed out as valid")
+			}
+		}
+	}
+	if n == 0 {
+		c.Violation("", "-", "no-builder-returns", "no function of the dictionary package returns a nil error")
+	}
 }
